@@ -1020,7 +1020,10 @@ fn brief(r: &Res) -> String {
 /// A panic injected inside the crate's call tree (C18's sites), as opposed to a panic of the
 /// caller while it holds a chunk (C08).
 fn crate_panic(cfg: &RunCfg) -> bool {
-    matches!(cfg.panic, Some((s, _)) if s != crate::work::PanicSite::Consumer)
+    matches!(
+        cfg.panic,
+        Some((s, _)) if s != crate::work::PanicSite::Consumer && s != crate::work::PanicSite::ElemDrop
+    )
 }
 
 fn eval_queries(
